@@ -6,7 +6,6 @@ package main
 // `go test -overlay` (nothing is written under /repo).
 
 import (
-	"sort"
 	"bytes"
 	"context"
 	"encoding/json"
@@ -15,6 +14,7 @@ import (
 	"os/exec"
 	"path/filepath"
 	"regexp"
+	"sort"
 	"strconv"
 	"strings"
 	"time"
